@@ -1,4 +1,5 @@
 """Helpers shared by the rule files."""
+import os
 import re
 
 from . import sym
@@ -283,11 +284,29 @@ def eval_with_env(fx, body, **kw):
 _PATH_CACHE = {}
 
 
-def cpaths(fx, body, unroll=1):
-    """Cached path enumeration (closure upvars substituted from their construction sites)."""
+UNROLL_FALLBACK = set()   # bodies whose deeper (thorough) unrolling exceeded the bound and were enumerated with unroll=1
+UNROLL_DEEP = set()       # bodies enumerated with unroll=2
+
+
+def cpaths(fx, body, unroll=None):
+    """Cached path enumeration (closure upvars substituted from their construction sites).
+    Quick tier: loops unrolled once.  Thorough tier: twice, falling back to once for a body whose
+    path count exceeds the (smaller) bound at that depth."""
+    deep = False
+    if unroll is None:
+        unroll = int(os.environ.get("AQV_UNROLL", "0")) or (2 if getattr(fx, "tier", "quick") == "thorough" else 1)
+        deep = unroll > 1
     key = (id(fx), body.name, body.unit, unroll)
     if key not in _PATH_CACHE:
-        _PATH_CACHE[key] = sym.Evaluator(fx, body, upvars=closure_env(fx, body), unroll=unroll, max_paths=80000).run()
+        if deep:
+            try:
+                _PATH_CACHE[key] = sym.Evaluator(fx, body, upvars=closure_env(fx, body), unroll=unroll, max_paths=20000).run()
+                UNROLL_DEEP.add(body.short)
+            except sym.PathExplosion:
+                UNROLL_FALLBACK.add(body.short)
+                _PATH_CACHE[key] = cpaths(fx, body, unroll=1)
+        else:
+            _PATH_CACHE[key] = sym.Evaluator(fx, body, upvars=closure_env(fx, body), unroll=unroll, max_paths=80000).run()
     return _PATH_CACHE[key]
 
 
